@@ -40,9 +40,9 @@ Elems == {QubitT, BoolT, Var(1, "A"), Var(1, "C"), OpaqueT("e1", "Cpy", <<>>, "C
 BSpecs == {Explicit("C"), Explicit("A"), FromParams(<<>>), FromParams(<<0>>), FromParams(<<1>>), FromParams(<<0, 1>>),
            FromParams(<<1, 0>>), FromParams(<<1, 1>>)}
 
-(* domain of C07: from-params indices are in range and name Type arguments *)
-WellFormedExt(x) == x.bspec.b = "FromParams" =>
-                      \A i \in Range(x.bspec.indices) : i + 1 <= Len(x.args) /\ x.args[i + 1].tya = "Type"
+(* domain of C07: from-params indices are in range ("any index list": an index may also name a nat / string / sequence argument,
+   which contributes nothing to the join) *)
+WellFormedExt(x) == x.bspec.b = "FromParams" => \A i \in Range(x.bspec.indices) : i + 1 <= Len(x.args)
 
 Compound(E, n) ==      \* all one-level compounds over element set E with rows of length <= n
   LET R == SeqsUpTo(E, n) IN
